@@ -558,6 +558,27 @@ class AuthSession:
             raise Machinery("credential callbacks outside the burst: %r" % (stray,))
         return self.steps[-len(reqs):]
 
+    # -- a complete key re-exchange between two authentication messages
+    def rekey(self, req):
+        cr = clean(req)
+        pz = self.ts.packetizer
+        self.quiesce()
+        w0, c0 = len(pz.wire), len(self.server.calls)
+        handled = self.tc.is_active()
+        if handled:
+            t = self.ts if cr["tok"] == "server" else self.tc
+            try:
+                t.renegotiate_keys()
+            except Exception:
+                pass                      # the connection ended instead (recorded below)
+        self.quiesce()
+        final = self.sample()
+        out = [reply_name(t, p, cr) for (kind, t, p) in pz.wire[w0:] if kind == "out" and not (20 <= t <= 49 or t == MSG_EXT_INFO)]
+        rec = {"req": cr, "cbs": [c for (_, c) in self.server.calls[c0:]], "out": out, "authed": final["authed"],
+               "alive": final["alive"], "mode": final["mode"], "handled": handled}
+        self.steps.append(rec)
+        return rec
+
     def server_error(self):
         e = getattr(self.ts, "saved_exception", None)
         return "" if e is None else "%s: %s" % (type(e).__name__, e)
@@ -580,6 +601,8 @@ def clean(req):
     interactive = r["k"] == "info_response" or (r["k"] == "request" and r["method"] == "keyboard-interactive")
     if r["cb"] == "query" and not interactive:
         r["cb"] = "fail"
+    if r["k"] == "rekey" and r["tok"] not in ("client", "server"):
+        r["tok"] = "client"
     r["pk"] = str(req.get("pk", ""))
     return r
 
@@ -600,7 +623,16 @@ def run_script(bursts, opts=None, names=None, other_sid=None):
             if other_sid is not None:
                 for r in b:
                     r["_other_sid"] = other_sid
-            S.burst(b, names)
+            part = []                       # a re-exchange is never pipelined with authentication messages
+            for r in b + [None]:
+                if r is None or r["k"] == "rekey":
+                    if part:
+                        S.burst(part, names)
+                        part = []
+                    if r is not None:
+                        S.rekey(r)
+                else:
+                    part.append(r)
         return {"opts": dict(S.opts), "steps": S.steps, "error": S.server_error(),
                 "bursts": [len(b) if isinstance(b, list) else 1 for b in bursts]}
     finally:
@@ -621,6 +653,7 @@ def real_other_session_id():
 from harness.core import cfg_text  # noqa: E402
 
 TOGGLES = {"GssHonoursCallback": True, "BlobOmits": "", "KeepsResultAfterBadSig": False, "KeepsResultOnForeignLabel": False,
+           "RekeyResetsAuthState": False,
            "ProbeAuthenticates": False, "PinsUser": True, "PartialCounts": False, "CapOffset": 0}
 ALL_CONFIGS = {"plain", "gss", "gss+ctx", "gss+bound", "gss+ctx+bound"}
 INVS = ["GrantNeedsApproval", "OneUser", "CapRespected"]
@@ -678,6 +711,8 @@ def primary(msgs):
 
 
 def step_method(req, mode):
+    if req["k"] == "rekey":
+        return "rekey"
     if req["k"] == "request":
         return req["method"]
     if req["k"] == "gss_mic" or mode == "gss":
@@ -804,6 +839,8 @@ def random_job(rnd, length, p, tag):
     for _ in range(length):
         x = rnd.random()
         cb = "ok" if rnd.random() < p.get("ok", 0.1) else rnd.choice(["fail", "fail", "partial"])
+        if rnd.random() < p.get("rekey", 0.06):
+            seq.append({"k": "rekey", "tok": rnd.choice(["client", "client", "server"])})
         if x < 0.70:
             user = "eve" if rnd.random() < p.get("switch", 0.02) else "alice"
             service = "other" if rnd.random() < p.get("service", 0.02) else "ssh-connection"
